@@ -67,6 +67,28 @@ pub fn relative(v: &RefValue, base: &Opts, sel: u16, mode: u8, dw: i8, dn: i8) -
 	o
 }
 
+/// Builds the I_deep_indentation case: (value, options).
+pub fn deep_case(inner: &RefValue, levels: &[(bool, bool)], base: &Opts, la: Lim, lo: Lim) -> (RefValue, Opts) {
+	let mut v = inner.clone();
+	for (i, (is_obj, second)) in levels.iter().enumerate() {
+		v = if *is_obj {
+			let mut es = vec![(format!("l{i}"), v)];
+			if *second {
+				es.push(("s".into(), RefValue::Null));
+			}
+			RefValue::Obj(es)
+		} else if *second {
+			RefValue::Arr(vec![v, RefValue::num("0")])
+		} else {
+			RefValue::Arr(vec![v])
+		};
+	}
+	let mut o = base.clone();
+	o.array_limit = la;
+	o.object_limit = lo;
+	(v, o)
+}
+
 pub fn run(ctx: &mut Ctx) {
 	let rule_nt = "non-trivial = at least one container expanded and one inline, or array and object spacing/limits differ while both kinds occur";
 	if ctx.wants("G_values_x_options") {
@@ -116,29 +138,16 @@ pub fn run(ctx: &mut Ctx) {
 				(gen::arb_value(gen::ValueCfg::SMALL), proptest::collection::vec((any::<bool>(), any::<bool>()), 8..80), refprint::arb_custom_opts(), lim.clone(), lim)
 			},
 			|(inner, levels, base, la, lo)| {
-				let mut v = inner.clone();
-				for (i, (is_obj, second)) in levels.iter().enumerate() {
-					v = if *is_obj {
-						let mut es = vec![(format!("l{i}"), v)];
-						if *second {
-							es.push(("s".into(), RefValue::Null));
-						}
-						RefValue::Obj(es)
-					} else if *second {
-						RefValue::Arr(vec![v, RefValue::num("0")])
-					} else {
-						RefValue::Arr(vec![v])
-					};
-				}
-				let mut o = base.clone();
-				o.array_limit = *la;
-				o.object_limit = *lo;
+				let (v, o) = deep_case(inner, levels, base, *la, *lo);
 				match property(&v, &OptCase::Custom(o), false) {
 					Ok((nt, classes)) => Outcome::ok(nt || levels.len() >= 32, classes),
 					Err(m) => Outcome::fail(m),
 				}
 			},
-			|(inner, levels, base, la, lo)| serde_json::json!({"inner": inner.encode(), "levels": levels.iter().map(|(a, b)| serde_json::json!([a, b])).collect::<Vec<_>>(), "base": refprint::opts_json(base), "array_limit": format!("{la:?}"), "object_limit": format!("{lo:?}")}),
+			|(inner, levels, base, la, lo)| {
+				let (v, o) = deep_case(inner, levels, base, *la, *lo);
+				case_json(&v, &OptCase::Custom(o), false)
+			},
 		);
 		ctx.add(fam);
 	}
@@ -175,9 +184,6 @@ pub fn run(ctx: &mut Ctx) {
 }
 
 pub fn replay(family: &str, case: &J) -> Result<(), String> {
-	if family == "I_deep_indentation" {
-		return Err("recorded for reading; re-run the family with the same VERIF_SEED to reproduce".into());
-	}
 	let _family = family;
 	let (v, oc, route) = case_decode(case);
 	property(&v, &oc, route).map(|_| ())
